@@ -241,6 +241,24 @@ def run_c20(chk, tier, seed):
         rel = abs(got - want) / max(abs(want), 1e-300)
         results.append(("h-h/2/{}/steps={}".format(curve, steps), rel <= 1e-7 and len(fine) == 4 * len(elems),
                         dict(curve=curve, history_seed=hs, steps=steps, n=len(elems), got=got, want=want, rel=rel)))
+        # the second call on the SAME estimator objects, with the element list (and the density) in another order, must give what
+        # fresh estimator objects give: nothing may be kept between calls that depends on the order of the list
+        perm = list(range(len(elems)))
+        random.Random(5 + hs).shuffle(perm)
+        elems_p, Phi_p = [elems[i] for i in perm], Phi[perm]
+        with quiet():
+            hh2 = HH2ErrorEstimator(SL=SL, g=glin_vec, use_mp=False)
+            hier = HierarchicalErrorEstimator(SL=SL, g=glin_vec)
+            hh2.estimate(elems, Phi)
+            hier.estimate(elems, Phi)
+            again_hh2 = float(hh2.estimate(elems_p, Phi_p))
+            again_hier = hier.estimate(elems_p, Phi_p)
+            fresh_hh2 = float(HH2ErrorEstimator(SL=SL, g=glin_vec, use_mp=False).estimate(elems_p, Phi_p))
+            fresh_hier = HierarchicalErrorEstimator(SL=SL, g=glin_vec).estimate(elems_p, Phi_p)
+        n_eval += 4 * len(elems)
+        ok_re = bool(again_hh2 == fresh_hh2 and np.all(again_hier == fresh_hier))
+        results.append(("second-call-with-permuted-list-equals-fresh-estimator/{}/steps={}".format(curve, steps), ok_re,
+                        dict(curve=curve, hh2=(again_hh2, fresh_hh2))))
     _report(chk, "C20", results, n_eval, "curves UnitSquare/LShape/Circle(/PiSquare), seeded random bisection histories of 2-8 steps, non-uniform "
             "time grids, random densities, Dirichlet data g = t^2; hierarchical rel 1e-8, h-h/2 rel 1e-7", "run_c20", tier, seed)
 
@@ -324,6 +342,11 @@ def sobolev_space_reference(leaves, e, L, rho, nt=8):
     return tot
 
 
+# (weighted L2, outer Gauss, H^1/4 in time, H^1/2 in space): the time and the space order DIFFER, so that an estimator that hands
+# the wrong order to a seminorm routine is visible (the space indicator is compared with a reference at 1e-4: needs order 17)
+C09_ORDERS = (11, 11, 5, 17)
+
+
 def c09_cases(tier):
     # steps < 0: |steps| successive space bisections of the leaf containing x_hat = 0.3 * L in the first time slab (deep local
     # refinement: patches of length down to L * 2^-9 at quadrature order 17 -- the indicators are scale-free quantities and must
@@ -360,7 +383,7 @@ def run_c09(chk, tier, seed):
         elems = list(mesh.leaf_elements)
         curve_name, curve = curve, (curve if steps >= 0 else "{}-deep{}".format(curve, -steps))     # label of this case in the clause names
         with quiet():
-            ee = ErrorEstimator(mesh, N_poly=(11, 11, 17, 17))
+            ee = ErrorEstimator(mesh, N_poly=C09_ORDERS)
             sob = ee.estimate_sobolev(elems, residual, use_mp=False)
             full_space = np.array([ee.sobolev_space(e, residual)[0] for e in elems])
             full_time = np.array([ee.sobolev_time(e, residual)[0] for e in elems])
@@ -373,7 +396,7 @@ def run_c09(chk, tier, seed):
         with quiet():
             sob2 = ee.estimate_sobolev(elems, residual2, use_mp=False)
             l22 = ee.estimate_weighted_l2(elems, residual2, use_mp=False)
-            ee_fresh = ErrorEstimator(mesh, N_poly=(11, 11, 17, 17))
+            ee_fresh = ErrorEstimator(mesh, N_poly=C09_ORDERS)
             sob2_f = ee_fresh.estimate_sobolev(elems, residual2, use_mp=False)
             l22_f = ee_fresh.estimate_weighted_l2(elems, residual2, use_mp=False)
         n_eval += 2 * len(elems)
